@@ -69,8 +69,10 @@ class P(MetProp):
                 return None
             L = rng.sample(names + ["nosuch"], rng.randint(0, min(2, len(names))))
             return grouping(L, rng.random() < 0.4)
-        op = rng.choice(list(mgen.VOP))
+        op = rng.choice(list(mgen.VOP) + ["avg", "avg"])
         g = glist()
+        if op == "avg" and rng.random() < 0.6:
+            g = grouping(rng.sample(names, 1))          # groups of unequal size (the label sets are not spread evenly)
         if op in ("sort", "sort_desc"):
             g = None
             e = m.mvec(op, x)
@@ -92,12 +94,14 @@ class P(MetProp):
             if op in ("sum", "count", "min", "max"):
                 rels.append("MRelVagg %d %d %s (%s)" % (ix, j, AGGK[op], mgen.grouping_coq(g)))
             # nesting: a second aggregation over the first one, checked against the OBSERVED first one
-            if rng.random() < 0.7:
-                op2 = rng.choice(["sum", "count", "min", "max"])
-                g2 = glist()
+            if rng.random() < (0.95 if op == "avg" else 0.7):
+                # ... also the SAME operator again with no grouping (avg of avgs over groups of unequal size is not the avg of everything)
+                op2 = rng.choice(["sum", "count", "min", "max", op, op] + ([op] * 6 if op == "avg" else []))
+                g2 = None if (op2 == op and rng.random() < 0.6) else glist()
                 e2 = m.mvec(op2, e, None, g2)
                 j2 = add(e2, instant)
-                rels.append("MRelVagg %d %d %s (%s)" % (j, j2, AGGK[op2], mgen.grouping_coq(g2)))
+                if op2 in AGGK:
+                    rels.append("MRelVagg %d %d %s (%s)" % (j, j2, AGGK[op2], mgen.grouping_coq(g2)))
                 if rng.random() < 0.5:
                     op3 = rng.choice(["sum", "max", "count"])
                     g3 = glist()
